@@ -11,7 +11,7 @@ namespace C06
 variable {α : Type} [Num α]
 
 /-- `advance(0)` changes nothing at all (whole record), in any reachable (`Good`) animator -/
-theorem advance_zero (n : Nat) (a : Animator α) (hg : C04.Good n a) (hclock : a.stateNs < durationMaxNs) :
+theorem advance_zero (P : List (Val α) → Prop) (a : Animator α) (hg : C04.Good P a) (hclock : a.stateNs < durationMaxNs) :
     a.advanceNs 0 = .ok a := by
   unfold Animator.advanceNs
   rw [if_neg (by simpa using hclock)]
@@ -109,7 +109,7 @@ theorem advance_add (a a1 a2 a12 : Animator α) (m n : Nat)
   rfl
 
 /-- inserting a zero-length advance anywhere in a history changes nothing -/
-theorem insert_zero_advance (n : Nat) (a b : Animator α) (ops1 ops2 : List (AnimOp α)) (hg : C04.Good n a)
+theorem insert_zero_advance (P : List (Val α) → Prop) (a b : Animator α) (ops1 ops2 : List (AnimOp α)) (hg : C04.Good P a)
     (h1 : a.run ops1 = .ok b) (hclock : b.stateNs < durationMaxNs) :
     a.run (ops1 ++ [AnimOp.advanceNs 0] ++ ops2) = a.run (ops1 ++ ops2) := by
   have run_append : ∀ (x : Animator α) (l1 l2 : List (AnimOp α)) y, x.run l1 = .ok y → x.run (l1 ++ l2) = y.run l2 := by
@@ -123,8 +123,8 @@ theorem insert_zero_advance (n : Nat) (a b : Animator α) (ops1 ops2 : List (Ani
       | error e => rw [hs] at h; simp at h
       | ok x' => rw [hs] at h; exact ih x' l2 y h
   rw [List.append_assoc, run_append a ops1 _ b h1, run_append a ops1 ops2 b h1]
-  have hgb := C04.good_run n a b ops1 hg h1
-  simp only [List.singleton_append, Animator.run, Animator.step, advance_zero n b hgb hclock]
+  have hgb := C04.good_run P a b ops1 hg h1
+  simp only [List.singleton_append, Animator.run, Animator.step, advance_zero P b hgb hclock]
 
 /-- whole nanoseconds add exactly: for step sizes that are exact multiples of 1 ns the clock after
 `advance(x); advance(y)` equals the clock after `advance(x+y)` -/
